@@ -7,6 +7,7 @@ ops  = 0 Map page frame flags | 1 Unmap page | 2 Translate va | 3 MapTemporary f
      | 9 IdentityMapRegion frame size flags | 10 Poke frame idx value | 11 Fill frame seed | 12 reserveZeroedFrame
      | 13 Fault addr errcode | 14 GPF addr | 15 setupPDTForKernel off n (flags addr size)*n | 16 EarlyReserveRegion size
      | 17 FlipPathEntry page level xormask   (set-up)
+     | 19 FaultWithRegs addr errcode rsp rip  (pageFaultHandler with the interrupted register context)
      | 18 OrUpperEntryBits page level mask   (set-up: translation-neutral bits into a present upper-level entry; level 3 = recursive entry of the active root)
 """
 import os, sys
@@ -27,10 +28,10 @@ VIEW_LO, VIEW_HI = 0x300000000000, 0x400000000000
 P, RW, US, PWT, PCD, ACC, DIRTY, HUGE, GLOBAL, COW, NX = 1, 2, 4, 8, 16, 32, 64, 128, 256, 512, 1 << 63
 KOFF = 0xffff800000000000
 
-NARGS = {0: 3, 1: 1, 2: 1, 3: 1, 4: 2, 5: 4, 6: 2, 7: 1, 8: 3, 9: 3, 10: 3, 11: 2, 12: 0, 13: 2, 14: 1, 15: 1, 16: 1, 17: 3, 18: 3}
+NARGS = {0: 3, 1: 1, 2: 1, 3: 1, 4: 2, 5: 4, 6: 2, 7: 1, 8: 3, 9: 3, 10: 3, 11: 2, 12: 0, 13: 2, 14: 1, 15: 1, 16: 1, 17: 3, 18: 3, 19: 4}
 NAMES = {0: 'Map', 1: 'Unmap', 2: 'Translate', 3: 'MapTemporary', 4: 'PdtInit', 5: 'PdtMap', 6: 'PdtUnmap', 7: 'PdtActivate',
          8: 'MapRegion', 9: 'IdentityMapRegion', 10: 'Poke', 11: 'Fill', 12: 'reserveZeroedFrame', 13: 'Fault', 14: 'GPF',
-         15: 'setupPDTForKernel', 16: 'EarlyReserveRegion', 17: 'FlipPathEntry', 18: 'OrUpperEntryBits'}
+         15: 'setupPDTForKernel', 16: 'EarlyReserveRegion', 17: 'FlipPathEntry', 18: 'OrUpperEntryBits', 19: 'FaultWithRegs'}
 
 
 def page_of(i0, i1, i2, i3, canon=True):
@@ -215,3 +216,11 @@ def any_leaf_flags(rng, present=True):
     if present:
         f |= P
     return f
+
+
+def low_pages_viewable():
+    """can the harness place a view at the lowest pages (page 0 included)?"""
+    try:
+        return os.geteuid() == 0 or int(open('/proc/sys/vm/mmap_min_addr').read()) == 0
+    except Exception:
+        return False
